@@ -73,6 +73,7 @@ type Candidate struct {
 	Note     map[string]string
 	PanicMsg string
 	Choices  string // the harness's choice vector (shape of the case)
+	UF       bool   // the model interprets uninterpreted functions freely
 }
 
 // PathResult summarises a finished path.
@@ -126,6 +127,10 @@ type Path struct {
 	stdoutMark int
 	itoaN      int
 	params     map[string]int
+	zones      []string
+	zonePtr    []*value
+	zoneOf     map[*value]int
+	utcLoc     *value
 	pending   [][]int64
 	res       *PathResult
 }
